@@ -1374,6 +1374,8 @@ class Explorer:
         if p == "std::vec::Vec::<T>::new" or p == "std::vec::Vec::<T>::with_capacity":
             if tracked_elem(info["targs"][0]):
                 return ret(("vec", ()))
+            if cseq_elem(info["targs"][0]):
+                return ret(self.cseq_new(st, "vec", []))      # a list of packet parts built on the path: kept element by element
             return None
         if p == "std::boxed::Box::<T>::new_uninit" and tracked_elem(info["targs"][0]):
             return ret(("boxuninit",))
@@ -1389,6 +1391,14 @@ class Explorer:
                     st.effects.append(("push", ("vec!",), it, site, ()))
                 return ret(("vec", v[1]))
             return ret(("vec", (("evs?",),)))
+        if p == "std::vec::Vec::<T, A>::push" and cseq_elem(info["targs"][0]) and args[0][0] == "ref":
+            cur = self.read_loc(st, args[0][1], args[0][2])
+            if cur[0] == "cseq":
+                items = [self.read_loc(st, cur[1], (("ci", i),)) for i in range(cur[2])] + [args[1]]
+                self.write_loc(st, args[0][1], args[0][2], self.cseq_new(st, "vec", items))
+                for kk in [kk for kk in st.visits if kk[0] == fr.depth]:
+                    pass
+                return ret(UNIT())
         if p == "std::vec::Vec::<T, A>::push" and tracked_elem(info["targs"][0]):
             tgt = args[0]
             if tgt[0] == "ref":
@@ -1512,6 +1522,19 @@ class Explorer:
                     self.finish_path(st, None, "diverge")
                     return "stop"
                 return ("fork", alts)
+            return None
+        if p == "std::option::Option::<T>::unwrap_or_default" and args and args[0][0] == "agg":
+            v = args[0]
+            if v[2] == "Some":
+                return ret(v[3][0])
+            ty = info["targs"][0] if info.get("targs") else ""
+            if ty.startswith("std::vec::Vec<"):
+                el = ty[len("std::vec::Vec<"):-1]
+                return ret(("vec", ()) if tracked_elem(el) else self.cseq_new(st, "default", []))
+            if ty == "bool":
+                return ret(C(0, "bool"))
+            if ty in ("u8", "u16", "u32", "u64", "usize"):
+                return ret(C(0, ty))
             return None
         if p == "std::ops::Try::branch":
             v = args[0]
@@ -2014,6 +2037,12 @@ def tracked_elem(ty):
     if ty.startswith("["):
         ty = ty[1:].rsplit(";", 1)[0].strip()
     return "GenericEvent" in ty or ty == "u8" or ty.startswith("std::io::IoSlice<")
+
+
+def cseq_elem(ty):
+    """Element types whose vectors are kept as concrete lists when built on the path: packet parts (subscription entries,
+    topic filters ...) - not properties, whose lists stay symbolic values handed to their own parse / size functions."""
+    return ty.startswith("mqtt::packet::") and not ty.endswith("property::Property") and "GenericEvent" not in ty
 
 
 def sig_mut_indices(t):
